@@ -303,6 +303,19 @@ func (uv *UtxoVM) UpdateUtxoTotal(delta *big.Int, batch kvdb.Batch, inc bool) {
 	batch.Put(append([]byte(pb.MetaTablePrefix), []byte(UTXOTotalKey)...), uv.utxoTotal.Bytes())
 }
 
+// ReloadTotal reads the total again from the meta table; used after a block batch that had
+// already moved the in-memory total could not be written
+func (uv *UtxoVM) ReloadTotal() {
+	utxoTotalBytes, findTotalErr := uv.metaHandle.MetaTable.Get([]byte(UTXOTotalKey))
+	if findTotalErr == nil {
+		total := big.NewInt(0)
+		total.SetBytes(utxoTotalBytes)
+		uv.utxoTotal = total
+	} else if def.NormalizedKVError(findTotalErr) == def.ErrKVNotFound {
+		uv.utxoTotal = big.NewInt(0)
+	}
+}
+
 // parseUtxoKeys extract (txid, offset) from key of utxo item
 func (uv *UtxoVM) parseUtxoKeys(uKey string) ([]byte, int, error) {
 	keyTuple := strings.Split(uKey[1:], "_") // [1:] 是为了剔除表名字前缀
